@@ -549,8 +549,25 @@ type distStats struct {
 
 // enumDistConfigs enumerates the complete 2-sub-distributor product (plus all 1-sub configurations
 // and the chain templates), filtered by the real validation.
+// distEventsAlpha: the configuration alphabet of C18's quick tier (events only need every kind of
+// destination and share arithmetic once; the full C03 space is used in the thorough tier).
+func distEventsAlpha() distAlphabet {
+	u2 := aU("U2")
+	return distAlphabet{
+		sources: [][]dacc{{aMAIN}, {aMfee}, {aI1}, {aMfee, aMAIN}, {aI1, aMAIN}},
+		primary: []dacc{aVRC, u2, aI1, aMAIN},
+		shares: [][]dshare{nil, {{aMAIN, "0.3"}}, {{u2, "0.3"}}, {{aI1, "0.3"}}, {{aMAIN, "0.333333333333333333"}, {u2, "0.05"}}, {{u2, "0.333333333333333333"}, {aMAIN, "0.05"}},
+			{{aI1, "0.333333333333333333"}, {aVRC, "0.05"}}},
+		burns: []string{"0", "0.5", "0.01"},
+	}
+}
+
 func enumDistConfigs(thorough bool, workers int, st *distStats) []dcfg {
-	out := enumDistAlphabet(distAlpha(thorough), workers, st)
+	return enumDistConfigsOver(distAlpha(thorough), workers, st)
+}
+
+func enumDistConfigsOver(alpha distAlphabet, workers int, st *distStats) []dcfg {
+	out := enumDistAlphabet(alpha, workers, st)
 	seen := map[string]bool{}
 	for _, c := range out {
 		seen[c.String()] = true
@@ -631,7 +648,12 @@ func quickReject(c dcfg) bool {
 // runDist explores every configuration with every inflow history (tree of patterns, depth blocks).
 func runDist(rc *RunCtx, prop string) {
 	var st distStats
-	cfgs := enumDistConfigs(rc.Thorough(), rc.Workers, &st)
+	var cfgs []dcfg
+	if prop == "C18" && !rc.Thorough() {
+		cfgs = enumDistConfigsOver(distEventsAlpha(), rc.Workers, &st)
+	} else {
+		cfgs = enumDistConfigs(rc.Thorough(), rc.Workers, &st)
+	}
 	rc.Logf("configurations: %d candidates, %d accepted by validation", st.candidates, st.accepted)
 	pats := []inflowPat{patSeven, patMulti, patNone}
 	depth := 2
